@@ -80,6 +80,32 @@ func (x *c08Gen) oldKey(c int) (c08Key, bool) {
 	return x.keys[c][x.g.R.Intn(len(x.keys[c]))], true
 }
 
+// after a whole-DB reopen the first validating append rebuilds the membership filter from the
+// durable keys; cancel such appends at a swept poll count, then retry durable keys with a live context
+func (x *c08Gen) cancelled(c int) {
+	g := x.g
+	nk := len(x.keys[c])
+	if nk < 3 {
+		return
+	}
+	rows := int(x.leo[c])
+	for i := 0; i < g.R.Range(1, 3); i++ {
+		k := g.R.Range(1, rows+nk+6)
+		if g.R.Chance(60) { // aim inside the rebuild scan (after the LEO recovery scan)
+			k = rows + 2 + g.R.Intn(nk+3)
+		}
+		key := x.freshKey(false)
+		g.Op("appc", "%d %d %d %d %s", c, g.R.Intn(2), 0, k, c08Rec(x.freshID(), key))
+		g.Count("appc:cancel-after-k-polls")
+	}
+	for i := 0; i < g.R.Range(2, 5); i++ {
+		if old, ok := x.oldKey(c); ok {
+			x.app("app", c, g.R.Intn(2), 0, []c08Key{old}, []uint64{x.freshID()}, false)
+			g.Count("appc:retry-durable-key-after-cancel")
+		}
+	}
+}
+
 func (x *c08Gen) collisionOp() {
 	g := x.g
 	c := g.R.Intn(c08NumChan)
@@ -176,6 +202,7 @@ func (x *c08Gen) collisionOp() {
 		x.g.Op("close", "%d", c)
 	case 5:
 		x.g.Op("reopen", "")
+		x.cancelled(c)
 	case 6:
 		k, have := x.oldKey(c)
 		if !have || g.R.Chance(20) {
@@ -253,6 +280,9 @@ func (x *c08Gen) saturationCase() {
 	if g.R.Chance(70) {
 		x.g.Op("reopen", "") // the rebuild walks every durable key in key order: 384 to the primary layer, the rest overflow
 		g.Count("saturation:reopen-rebuild")
+		if g.R.Chance(50) {
+			x.cancelled(c)
+		}
 	} else {
 		x.g.Op("close", "%d", c)
 	}
